@@ -202,7 +202,7 @@ func runC35(ctx *ev.Ctx, c c35Case) {
 				continue
 			}
 			prePool := e.pool()
-			cons, _, n := prePool.consensus()
+			cons, _, n := e.validators()
 			thr := ceil2of3(n)
 			if isApprove(op.K) {
 				if it, ok := prePool.Items[world.PubHex(e.actor(op.A))]; ok && it.Status != node_manager.ConsensusStatus {
@@ -296,6 +296,9 @@ func runC35(ctx *ev.Ctx, c c35Case) {
 				mc := chains[id]
 				if got := e.scRegistered(id); got != mc.reg {
 					ctx.Failf("after %s: registry entry of chain %d is %v, the model (owner requests + approval rounds) says %v", what, id, got, mc.reg)
+				}
+				if mc.reg.Present { // and byte for byte, against the harness's own encoding
+					e.scStoredCheck("after "+what, mc.reg)
 				}
 				if got := e.scApply(id); got != mc.apply {
 					ctx.Failf("after %s: pending registration of chain %d is %v, model says %v", what, id, got, mc.apply)
